@@ -280,7 +280,7 @@ func genWrapper(r *rng.R, tier string) corr.Case {
 			ns := strconv.Itoa(n)
 			if r.Chance(1, 10) {
 				// "no limit" idioms and other large limits: the result is still the few matching items
-				ns = r.Pick("4398046511105", "9223372036854775806", "9223372036854775807", "9223372036854775807", "4611686018427387904")
+				ns = r.Pick("17592186044417", "9223372036854775806", "9223372036854775807", "9223372036854775807", "4611686018427387904")
 				if r.Chance(1, 8) && !eagerPrealloc() {
 					ns = r.Pick("2147483647", "1099511627776") // one per script (a second one is `bad-op`)
 				}
@@ -512,7 +512,7 @@ func fixedCases() []corr.Case {
 			}
 		}
 	}
-	for _, lim := range []string{"4398046511105", "9223372036854775806", "9223372036854775807"} {
+	for _, lim := range []string{"17592186044417", "9223372036854775806", "9223372036854775807"} {
 		w = append(w, "wscan gte 0 all "+lim, "wscan lt 3 all "+lim)
 	}
 	if !eagerPrealloc() {
@@ -556,7 +556,7 @@ func fixedCases() []corr.Case {
 		corr.Case{Tag: "fixed-regress", Lines: []string{"new 2", "ins 0 1 1", "ins 0 2 2", "ins 0 3 3", "ins 0 4 4", "chk 0", "ins 0 5 5", "ins 0 6 6", "chk 0", "clone 0", "del 1 3", "chk 0", "chk 1", "scan 0 asc - - all", "del 0 1", "del 0 2", "chk 0", "len 0", "scan 1 asc - - all"}},
 		// "no limit" passed as the largest int (audit finding 1)
 		corr.Case{Tag: "fixed-limit", Lines: []string{"neww", "wins 1 1", "wins 2 2", "wins 3 3", "wins 4 4", "wins 5 5",
-			"wscan gte 0 all 9223372036854775807", "wscan lte 4 mod3 9223372036854775806", "wscan gt 2 all 4398046511105", "wlen", "wchk"}},
+			"wscan gte 0 all 9223372036854775807", "wscan lte 4 mod3 9223372036854775806", "wscan gt 2 all 17592186044417", "wlen", "wchk"}},
 		// the interleaving of seeded change C03-4: Update parked in its lookup, Delete of the same key queued behind it
 		corr.Case{Tag: "fixed-race", Lines: []string{"neww", "wins 1 1", "wins 2 2", "wins 3 3", "wrace 1 upd 2 20 7 / del 2", "wchk", "wlen",
 			"wrace 1 upd 1 21 8 / upd 1 22 9", "wchk", "wrace 2 del 3 / ups 3 5 10", "wrace 1 get 5 / del 5", "wrace 9 upd 21 4 11 / ins 21 12", "wlen"}},
@@ -575,7 +575,7 @@ func spec() corr.Spec {
 			case "thorough":
 				return 60000
 			}
-			return 18000
+			return 7000
 		},
 		Gen: func(r *rng.R, tier string, i int) corr.Case {
 			if only := os.Getenv("C03_ONLY"); only != "" { // development aid: one generator class
@@ -619,9 +619,9 @@ func spec() corr.Spec {
 			ins, scans := 0, 0
 			for i, l := range c.Lines {
 				if strings.HasPrefix(l, "wrace ") && strings.HasPrefix(res.Outs[i], "a=") {
-				scans++
-			}
-			if (strings.HasPrefix(l, "ins ") || strings.HasPrefix(l, "wins ")) && res.Outs[i] != "bad-op" {
+					scans++
+				}
+				if (strings.HasPrefix(l, "ins ") || strings.HasPrefix(l, "wins ")) && res.Outs[i] != "bad-op" {
 					ins++
 				}
 				if (strings.HasPrefix(l, "scan ") || strings.HasPrefix(l, "wscan ")) && len(res.Outs[i]) > 2 && res.Outs[i][0] == '[' {
